@@ -408,6 +408,8 @@ class Interp:
                     if isinstance(v, FloatV):
                         v = FloatV(("name", f"{rel}:{tgt.id}", v.expr))
                     env[tgt.id] = v
+        if rel == "a5/core/origin.py" and "origins" in env:
+            env["origins"] = TableV("origins", self.origin_len)      # the face table as every other module sees it
         return env
 
     @staticmethod
@@ -1225,6 +1227,9 @@ class Interp:
 
     def compare_values(self, op: ast.cmpop, l: Any, r: Any) -> Any:
         if isinstance(op, (ast.Is, ast.IsNot)):
+            if isinstance(l, FuncRef) and isinstance(r, FuncRef) and l.module == "<builtin>" and r.module == "<builtin>":
+                same = l.name == r.name          # type(x) is int
+                return same if isinstance(op, ast.Is) else not same
             if isinstance(l, NoneV) or isinstance(r, NoneV):
                 same = isinstance(l, NoneV) and isinstance(r, NoneV)
                 if isinstance(l, Unknown) or isinstance(r, Unknown):
@@ -1306,6 +1311,8 @@ class Interp:
                 return FloatV((name, l.expr if isinstance(l, FloatV) else ("int", l),
                                r.expr if isinstance(r, FloatV) else ("int", r)))
             return Unknown("float arithmetic")
+        if isinstance(l, TupleV) and isinstance(r, TupleV) and isinstance(op, ast.Add):
+            return TupleV(list(l.items) + list(r.items))
         if isinstance(l, ListV) and isinstance(r, Lin) and isinstance(op, ast.Mult):
             # [x] * n
             if len(l.segs) == 1 and not l.segs[0].binders:
@@ -1732,6 +1739,21 @@ class Interp:
                         n = max(0, -(-span.const // args[2].const))
                         return RangeV(args[0], args[1], args[2].const, n)
             return Unknown("range")
+        if name == "sum" and len(args) in (1, 2) and not kwargs:
+            a0 = args[0]
+            if isinstance(a0, GenV):
+                saved_u, saved_U = self.unroll_ranges, self.UNROLL
+                self.unroll_ranges = self.UNROLL = 64
+                try:
+                    a0 = self.materialise(a0, state)
+                finally:
+                    self.unroll_ranges, self.UNROLL = saved_u, saved_U
+            if isinstance(a0, ListV) and not a0.unknown and not a0.stores and all(not sg.binders and isinstance(sg.elem, Lin) for sg in a0.segs):
+                tot = args[1] if len(args) == 2 and isinstance(args[1], Lin) else Lin(0)
+                for sg in a0.segs:
+                    tot = tot + sg.elem
+                return tot
+            return Unknown("sum of an unmodelled sequence")
         if name == "iter" and len(args) == 1 and not kwargs:
             a0 = args[0]
             if isinstance(a0, GenV):
@@ -1741,10 +1763,19 @@ class Interp:
             if isinstance(a0, ListV) and not a0.unknown:
                 return GenV(None, items=ListV(list(a0.segs)))
             return Unknown("iter() of an unmodelled value")
-        if name in ("list", "tuple", "sorted") and len(args) == 1 and isinstance(args[0], GenV) and not kwargs:
+        if name == "tuple" and len(args) == 1 and isinstance(args[0], GenV) and not kwargs:
+            # a table built once from a small range: follow it element by element
+            saved_u, saved_U = self.unroll_ranges, self.UNROLL
+            self.unroll_ranges = self.UNROLL = 64
+            try:
+                lst = self.materialise(args[0], state)
+            finally:
+                self.unroll_ranges, self.UNROLL = saved_u, saved_U
+            if isinstance(lst, ListV) and not lst.unknown and not lst.stores and all(not sg.binders for sg in lst.segs):
+                return TupleV([sg.elem for sg in lst.segs])
+            return Unknown("tuple of a generator that is not followed element by element")
+        if name in ("list", "sorted") and len(args) == 1 and isinstance(args[0], GenV) and not kwargs:
             args = [self.materialise(args[0], state)]
-            if name == "tuple":
-                return Unknown("tuple of a generator")
         if name == "list" and len(args) == 1 and isinstance(args[0], RangeV) and args[0].count is not None:
             fams = self.families(args[0])
             return ListV([Seg(el, tuple(bs)) for el, bs in fams])
@@ -1786,6 +1817,37 @@ class Interp:
             return args[1]
         if name in ("ValueError", "TypeError", "IndexError", "Exception", "RuntimeError", "OverflowError"):
             return ExcV(name, core.src(node))
+        def type_name(v):
+            if isinstance(v, bool):
+                return "bool"
+            if isinstance(v, Lin):
+                return "int"
+            if isinstance(v, FloatV):
+                return "float"
+            if isinstance(v, StrV):
+                return "str"
+            if isinstance(v, NoneV):
+                return "NoneType"
+            if isinstance(v, (ListV, GenericList, WindowListV)):
+                return "list"
+            if isinstance(v, TupleV):
+                return "tuple"
+            if isinstance(v, (CellV, MapV)):
+                return "dict"
+            return None
+        if name == "type" and len(args) == 1:
+            tn = type_name(args[0])
+            return FuncRef("<builtin>", tn) if tn else Unknown("type() of an unmodelled value")
+        if name == "isinstance" and len(args) == 2:
+            tn = type_name(args[0])
+            cands = args[1].items if isinstance(args[1], TupleV) else [args[1]]
+            if tn and all(isinstance(c, FuncRef) and c.module == "<builtin>" for c in cands):
+                names = {c.name for c in cands}
+                if tn in names or (tn == "bool" and "int" in names):
+                    return True
+                if names <= {"int", "float", "str", "list", "tuple", "dict", "bool", "bytes", "set", "frozenset", "complex"}:
+                    return False
+            return Unknown("isinstance")
         if name == "isinstance":
             return Unknown("isinstance")
         return Unknown(f"builtin {name}")
